@@ -10,6 +10,7 @@ SNAP=/tmp/vsnap_$PROP
 export CARGO_NET_OFFLINE=true
 [ -d "$SNAP" ] || git -C /verif worktree add -q --detach "$SNAP" HEAD || exit 2
 for K in "$@"; do
+  [ -f "$WT/out/$K/env.txt" ] && { set -a; . "$WT/out/$K/env.txt"; set +a; }   # DEMO_DIR / DEMO_CWD / RUSTFLAGS for the demo
   echo "##### $PROP out/$K"
   if [ -f "$WT/out/$K/cmd.txt" ]; then
     # shellcheck disable=SC2046
